@@ -201,6 +201,9 @@ def check_mixed_mass(ctx, meshname, mesh, grid, primal, dual, sel):
     dspec = {"kind": dual, "sel": sel, "inc": None if dual == "DUAL1" else False, "trunc": None if dual == "DUAL1" else False}
     if dual == "DUAL0":
         dspec["inc"] = True
+    if c09_empty(mesh, pspec) or c09_empty(mesh, dspec):
+        ctx.declined += 1  # selections without any dof entity are the business of C09 (recorded finding there)
+        return
     try:
         ps = SP.make_space(grid, pspec)
         ds = SP.make_space(grid, dspec)
